@@ -112,7 +112,7 @@ func (s *supervisor) judge(pl []planned) ev.Coverage {
 	exps := make([]refeval.Expected, len(programs))
 	for i, pr := range programs {
 		refs[i] = countReference(pr.P)
-		if !pr.Diamond {
+		if !pr.Diamond && pr.Bytes == nil {
 			exps[i] = refeval.Eval(pr.P)
 		}
 	}
@@ -199,7 +199,7 @@ func (s *supervisor) judge(pl []planned) ev.Coverage {
 				diamondRoundsRun++
 				diamondDraws += res.FreshMachines
 			}
-			if (pr.Diamond || pr.P.NumShuffles() > 0) && produced > 0 {
+			if (pr.Diamond || pr.Bytes != nil || pr.P.NumShuffles() > 0) && produced > 0 {
 				nontrivial.Add(fmt.Sprintf("%d|%s|%s", x.prog, ph, id))
 			}
 			// (1) the reference evaluator: rows and callback observations
